@@ -43,6 +43,8 @@ TraceInit == /\ tid \in 1..Len(Traces)
              /\ case = TCase(Traces[tid])
              /\ pts = PointsFrom(Traces[tid].kind = "outer", TLin(Traces[tid]), Traces[tid].snake)
              /\ md = Traces[tid].md
+             /\ ord = IF Traces[tid].kind = "outer" THEN Order(TCase(Traces[tid])) ELSE <<>>
+             /\ blk = 0
              /\ l = 1 /\ pt = 0 /\ ph = "start" /\ rd = {}
              /\ pos = [i \in 1..Len(TLin(Traces[tid])) |-> NoPos]
              /\ TLCSet(tid, 1)
